@@ -604,8 +604,10 @@ func (s *Service) ProcessRequest(ctx *core.Context, m map[string]interface{}, ou
 				case map[string]interface{}:
 					_, err = s.ProcessRequest(ctx, m, out)
 					if err != nil {
-						problem := fmt.Sprintf(`{"error":"%s"}`, err.Error())
-						_, err = out.Write([]byte(problem))
+						// Marshal the message: it can contain
+						// quotes, for example.
+						problem, _ := json.Marshal(map[string]string{"error": err.Error()})
+						_, err = out.Write(problem)
 					}
 				default:
 					problem := fmt.Sprintf(`"bad type %T"`, x)
@@ -954,7 +956,12 @@ func (s *Service) ProcessRequest(ctx *core.Context, m map[string]interface{}, ou
 		if err != nil {
 			return nil, err
 		}
-		bs := []byte(fmt.Sprintf(`{"fact":%s,"id":"%s"}`, js, id))
+		// Marshal the id: it can contain quotes, for example.
+		idjs, err := json.Marshal(id)
+		if err != nil {
+			return nil, err
+		}
+		bs := []byte(fmt.Sprintf(`{"fact":%s,"id":%s}`, js, idjs))
 
 		if _, err = out.Write(bs); err != nil {
 			core.Log(core.ERROR, ctx, "/api/loc/facts/get", "warning", err)
